@@ -490,3 +490,21 @@ _ADDED = {
 }
 for _pid, _txt in _ADDED.items():
     PROPS[_pid]["rule"] = PROPS[_pid]["rule"] + _txt
+_ADDED6 = {
+    "C03": " Variants: every embedded case x its grpc-go variants (filterGRPCImplTestCases) x reported code 1-16: accepted iff expected or documented alternative of the base case.",
+    "C04": " Printer: feedback lines written by the reference server's real printer (names / messages with %, %d, colons, tabs, unicode) attributed, run fails, case named.",
+    "C05": " Client mode: the scripted client's TLS handshake offers h2 and http/1.1 - the server of an HTTP/1.1 permutation does not pick h2 and vice versa.",
+    "C06": " An include / exclude entry naming an impossible combination outright must be rejected.",
+    "C07": " RunMode: run mode as run() derives it from the peer commands x suites of every mode; Files: --test-file paths with equal base names, nested, relative, absolute.",
+    "C08": " Classify: outcomes (also with feedback afterwards) reported known-failing / known-flaky iff a pattern matches.",
+    "C09": " ServerResponse: start response at sizes around the 1 MiB limit through the real batch runner, several chunkings.",
+    "C10": " Wedged: in-process client that writes a bad answer and never returns: bounded waits, one error callback, sends refused.",
+    "C11": " Printer (see C04), ResponseSize (see C09), OSPeers also with an in-process client whose output ends while it keeps reading.",
+    "C12": " TLS: real handshakes over HTTP/1.1, 2 and 3 with / without client certificate; BlackBox also against servers started with an HTTP tracer.",
+    "C13": " BinE2E: bad -bin header / trailer from the real reference server, every kind of RPC, also cancelled after the first response.",
+    "C16": " WireHandOff: the reference client's collector and examiner (setWireTrace / examineWireDetails), under the race detector in both tiers.",
+    "C18": " StatusTrailers: the reference server's own gRPC status trio for an error; StatusDecode: the reference client's decoder inverts PercentEncodeMessage.",
+    "C20": " ClientWire / ServerWire: the reference peers' compressed requests / responses decode with the independent codec of the announced name.",
+}
+for _pid, _txt in _ADDED6.items():
+    PROPS[_pid]["rule"] = PROPS[_pid]["rule"] + _txt
